@@ -154,7 +154,7 @@ def record_one(inst):
             break
     cfg = dict(maxfun=int(inst.get("maxfun", 60)), det=bool(det), reg=inst.get("reg", "none") != "none", hasproj=bool(inst.get("proj")),
                onesample=bool(onesample), valid=bool(inst.get("valid", True)), mayraise=bool(up.get("interpolation.throw_error_on_nans", False) or inst.get("mayraise", False)),
-               wantopt=inst.get("fstar") is not None, ref=int(inst.get("ref", 0)), zero=0.0, r1e10=1e10,
+               wantopt=inst.get("fstar") is not None, ref=int(inst.get("ref", 0)), parallel=bool(up.get("init.run_in_parallel", False)), zero=0.0, r1e10=1e10,
                rhobeg=float(out["run"].P["kwargs"].get("rhobeg", 0.1 if inst.get("scaling") else 0.1 * max(float(np.max(np.abs(out["run"].P["x0"]))), 1.0))),
                rhoenddoc=recorder.doc_rhoend(inst, nrest),
                maxunsucc=int(inst.get("maxunsucc", up.get("restarts.max_unsuccessful_restarts", 10))),
